@@ -503,6 +503,43 @@ def backends_section():
     emit()
 
 
+class Ctx:
+    """What a plug-in section (tools/sections/NN_name.py, function `section(ctx)`) may use."""
+    REPO = REPO
+    emit = staticmethod(emit)
+    notes = notes
+    fingerprints = fingerprints
+    translate = staticmethod(translate)
+    Untranslatable = Untranslatable
+    find_func = staticmethod(find_func)
+    fp = staticmethod(fp)
+    rat = staticmethod(rat)
+    unparse = staticmethod(unparse)
+
+
+def plugin_sections():
+    """Each property adds its own extraction in tools/sections/*.py (sorted by file name).  A plug-in that raises is
+    recorded in the notes and emits `def <name>SectionOk : Bool := false`, so that dependent bridge lemmas fail."""
+    import importlib.util
+    d = Path(__file__).resolve().parent / 'sections'
+    for f in sorted(d.glob('*.py')):
+        name = re.sub(r'^\d+_', '', f.stem)
+        spec = importlib.util.spec_from_file_location(f'sections_{f.stem}', f)
+        mod = importlib.util.module_from_spec(spec)
+        mark = len(lines)
+        try:
+            spec.loader.exec_module(mod)
+            emit(f'/-! ## plug-in section {f.name} -/')
+            mod.section(Ctx)
+            emit(f'def {name}SectionOk : Bool := true')
+        except Exception as e:  # noqa: BLE001
+            del lines[mark:]
+            notes[f'section:{f.name}'] = f'failed: {e!r}'
+            emit(f'/-! ## plug-in section {f.name}: FAILED ({type(e).__name__}) -/')
+            emit(f'def {name}SectionOk : Bool := false')
+        emit()
+
+
 def main():
     emit('/- GENERATED by /verif/tools/extract.py from /repo — do not edit; regenerated on every run. -/')
     emit('set_option linter.unusedVariables false')
@@ -512,6 +549,7 @@ def main():
     repository_section()
     ratelimit_section()
     backends_section()
+    plugin_sections()
     emit('end Replicat.Gen')
     text = '\n'.join(lines) + '\n'
     OUT.parent.mkdir(parents=True, exist_ok=True)
